@@ -1,6 +1,8 @@
 /-
   C14 helper lemmas, part 2: `gen_vector` enumerates the index cube, fold invariants of the two searches
   (membership, filter, minimality / maximal cosine / tie-break), positivity of lattice-vector lengths.
+  `K` is any linearly ordered commutative ring: the lemmas apply to the driver's run at `ℤ` (cell scaled to
+  integers) as well as to `ℚ`/`ℝ`.
 -/
 import Proofs.C14_Lemmas
 import Mathlib.Data.List.Basic
@@ -66,7 +68,7 @@ theorem foldl_inv_prefix {α β : Type} (f : β → α → β) (Q : List α → 
 
 
 section ordered
-variable {K : Type} [Field K] [LinearOrder K] [IsStrictOrderedRing K]
+variable {K : Type} [CommRing K] [LinearOrder K] [IsStrictOrderedRing K]
 
 /-- squared Cartesian length of the lattice vector `v`. -/
 def m2 (V : M3 K) (v : IV) : K := V3.normSq (cart V v)
@@ -370,7 +372,7 @@ end ordered
 
 /-! ### anatomy of a successful run, gcd reduction -/
 section fsb
-variable {K : Type} [Field K] [LinearOrder K] [IsStrictOrderedRing K]
+variable {K : Type} [CommRing K] [LinearOrder K] [IsStrictOrderedRing K]
 
 /-- the default / explicit `maxindex`. -/
 def maxIndexOf (ini : Init) (hkl : IV) (L : M3 Int) (nOpt : Option Int) : Int :=
